@@ -1,5 +1,7 @@
 -- Root of the library: every property file (statements + proofs) is built by `lake build`.
 import Casket.Props.C01
+import Casket.Props.C02
+import Casket.Props.C03
 import Casket.Props.C04
 import Casket.Props.C05
 import Casket.Props.C06
